@@ -6128,12 +6128,21 @@ fn eval_expr(
                 env.push_expr_to_eval(ExpressionState::NotEvaluated, Rc::clone(scrutinee));
             }
             ExpressionState::PartiallyEvaluated(_) => {
+                let scrutinee_value = env.current_frame().evalled_values.last().cloned();
+
                 env.push_expr_to_eval(
                     ExpressionState::EvaluatedSubexpressions,
                     Rc::clone(&outer_expr),
                 );
-                eval_match_cases(env, expr_value_is_used, &scrutinee.position, cases)
-                    .map_err(|e| (RestoreValues(vec![]), e))?;
+                if let Err(e) =
+                    eval_match_cases(env, expr_value_is_used, &scrutinee.position, cases)
+                {
+                    // No case was entered. Discard the state we just
+                    // pushed and put the scrutinee back, so we can
+                    // resume.
+                    env.current_frame_mut().exprs_to_eval.pop();
+                    return Err((RestoreValues(scrutinee_value.into_iter().collect()), e));
+                }
             }
             ExpressionState::EvaluatedSubexpressions => {
                 env.current_frame_mut().bindings.pop_block();
